@@ -264,6 +264,40 @@ def run(chk):
             pwant.append(w)
             plabels.append(s)
             ecases.append(evalsrc_case(s))
+    # the same trees with every prefix run split by parentheses: !!x as !(!(x)), --x as -(-(x)) (value only: the tree
+    # differs by the parentheses)
+    def split_runs(e):
+        if not isinstance(e, tuple):
+            return e
+        if e and e[0] == 'un':
+            inner = split_runs(e[3])
+            for _ in range(e[2]):
+                inner = ('un', e[1], 1, ('paren', inner))
+            return inner
+        return tuple(split_runs(x) if isinstance(x, tuple) else ([split_runs(y) if isinstance(y, tuple) else y for y in x] if isinstance(x, list) else x)
+                     for x in e)
+    scases, slabels = [], []
+    for e in es:
+        if "('un'," in repr(e):
+            a, b = render(e, 'min', 'one', rng), render(split_runs(e), 'min', 'one', rng)
+            scases += [evalsrc_case(a), evalsrc_case(b)]
+            slabels += [a, b]
+    for a, b in [("!!i1", "!(!i1)"), ("!!s1 == true", "(!(!s1)) == true"), ("--u1", "-(-u1)"), ("--imin", "-(-imin)"), ("!!!l1", "!(!(!l1))"),
+                 ("[!!i0, --d1]", "[!(!i0), -(-d1)]"), ("!!nl ? 1 : 2", "!(!nl) ? 1 : 2"), ("----i1", "-(-(-(-i1)))"), ("--s1", "-(-s1)")]:
+        scases += [evalsrc_case(a), evalsrc_case(b)]
+        slabels += [a, b]
+    simpl, _ = tie(chk, "prefix runs split by parentheses (value)", scases, labels=slabels)
+    for i in range(0, len(scases), 2):
+        ra, rb = split_result(simpl[i])[:2], split_result(simpl[i + 1])[:2]
+        if ra[0] == "ERR":
+            ra = ("ERR", "")
+        if rb[0] == "ERR":
+            rb = ("ERR", "")
+        if not is_dead(simpl[i]) and not is_dead(simpl[i + 1]) and ra != rb:
+            chk.violation("adding parentheses that agree with the structure, or changing white space, changed the result",
+                          dict(case=scases[i], source=slabels[i], other=slabels[i + 1], impl=simpl[i], other_result=simpl[i + 1]))
+    chk.stream("prefix runs written as a run and as nested parenthesised single operators: same value", len(scases), len(scases) // 2,
+               exhaustive=False)
     pimpl, pmodel = tie(chk, "renderings of generated trees (syntax tree)", pcases, labels=plabels)
     eimpl, emodel = tie(chk, "renderings of generated trees (value)", ecases, labels=plabels)
     nshape = 0
